@@ -355,8 +355,10 @@ class InProtocolBase(ProtocolMixin):
 
         try:
             return D(string)
-        except InvalidOperation as e:
-            raise ValidationError(string, "%%r: %r" % e)
+        except (InvalidOperation, TypeError, ValueError) as e:
+            # TypeError/ValueError: not even a string or a number (dict
+            # protocols can deliver anything here)
+            raise ValidationError(string, "%%r: %r" % (e,))
 
     def decimal_from_bytes(self, cls, string):
         return self.decimal_from_unicode(cls,
